@@ -5385,8 +5385,8 @@ type observation = { o_line : str; o_pos : nat; o_mode : input_mode;
 
 type config = { c_mode : edit_mode; c_completion : completion_type;
                 c_timeout_none : bool; c_cols : nat; c_tab_stop : nat;
-                c_indent_size : nat; c_prompt_limit : nat;
-                c_has_helper : bool;
+                c_indent_size : nat; c_prompt_limit : nat; c_show_all : 
+                bool; c_has_helper : bool;
                 c_complete : (str -> nat -> nat * str list);
                 c_hint : (str -> nat -> str option);
                 c_validate : (str -> vresult);
@@ -8924,7 +8924,10 @@ let complete_line u cfg fuel =
           ebind (list_span_step u cfg start cands) (fun _ ->
             if Nat.ltb (S O) (length cands)
             then ebind beep (fun _ ->
-                   ebind (next_cmd u cfg fuel true) (fun c ->
+                   ebind
+                     (if cfg.c_show_all
+                      then eret CComplete
+                      else next_cmd u cfg fuel true) (fun c ->
                      match c with
                      | CComplete ->
                        ebind eget (fun s1 ->
@@ -9473,8 +9476,8 @@ let mk_config mode ct timeout_none cols0 has_helper cands hints vk bindings =
   { c_mode = mode; c_completion = ct; c_timeout_none = timeout_none; c_cols =
     cols0; c_tab_stop = default_tab_stop; c_indent_size =
     default_indent_size; c_prompt_limit = default_completion_prompt_limit;
-    c_has_helper = has_helper; c_complete = (script_complete cands); c_hint =
-    (script_hint hints); c_validate =
+    c_show_all = false; c_has_helper = has_helper; c_complete =
+    (script_complete cands); c_hint = (script_hint hints); c_validate =
     (match vk with
      | VKNone -> (fun _ -> VRValid None)
      | VKBrackets -> (fun l -> brackets_v l [])
